@@ -19,9 +19,9 @@ Print Assumptions exit_status_zero_iff.
 
 Theorem completed_iff : forall i,
   run_cli i = Completed <->
-  (in_regular i = true /\ out_is_in i = false /\ parser_test i = false /\ has_cmd i = true /\ cmd_regular i = true /\ cmd_exec i = true
+  (in_regular i = true /\ out_ok i = true /\ out_is_in i = false /\ parser_test i = false /\ has_cmd i = true /\ cmd_regular i = true /\ cmd_exec i = true
    /\ (has_cc i = true -> cc_regular i = true /\ cc_exec i = true /\ cc_runs i = true)
-   /\ jobs_ok i = true /\ cmd_runs i = true /\ golden_has_match i = true /\ interrupted i = false /\ internal i = None).
+   /\ jobs_ok i = true /\ limits_ok i = true /\ in_decodable i = true /\ cmd_runs i = true /\ golden_has_match i = true /\ interrupted i = false /\ internal i = None).
 Proof. exact run_cli_completed. Qed.
 Print Assumptions completed_iff.
 
@@ -32,7 +32,8 @@ Print Assumptions command_cannot_run.
 
 Theorem status_zero_needs_every_check : forall i,
   exit_status (run_cli i) = 0%Z -> parser_test i = false ->
-  in_regular i = true /\ out_is_in i = false /\ has_cmd i = true /\ cmd_regular i = true /\ cmd_exec i = true /\ jobs_ok i = true /\ cmd_runs i = true.
+  in_regular i = true /\ out_ok i = true /\ out_is_in i = false /\ has_cmd i = true /\ cmd_regular i = true /\ cmd_exec i = true /\ jobs_ok i = true
+  /\ limits_ok i = true /\ in_decodable i = true /\ cmd_runs i = true.
 Proof. exact status_zero_checks. Qed.
 Print Assumptions status_zero_needs_every_check.
 
